@@ -623,6 +623,11 @@ func (t *Terminfo) TPuts(w io.Writer, s string) {
 			return
 		}
 		val := s[:end]
+		if !isPadSpec(val) {
+			// not a padding specification, just text that looks like one
+			_, _ = io.WriteString(w, "$<")
+			continue
+		}
 		s = s[end+1:]
 		padus := 0
 		unit := time.Millisecond
@@ -654,6 +659,41 @@ func (t *Terminfo) TPuts(w io.Writer, s string) {
 			time.Sleep(unit * time.Duration(padus))
 		}
 	}
+}
+
+// isPadSpec reports whether val is the inside of a padding specification
+// $<n[.m][*][/]>: a number, an optional fraction, and the optional
+// proportional ('*') and mandatory ('/') flags in either order.
+func isPadSpec(val string) bool {
+	i := 0
+	for i < len(val) && val[i] >= '0' && val[i] <= '9' {
+		i++
+	}
+	if i == 0 {
+		return false
+	}
+	if i < len(val) && val[i] == '.' {
+		j := i + 1
+		for j < len(val) && val[j] >= '0' && val[j] <= '9' {
+			j++
+		}
+		if j == i+1 {
+			return false
+		}
+		i = j
+	}
+	star, slash := false, false
+	for ; i < len(val); i++ {
+		switch {
+		case val[i] == '*' && !star:
+			star = true
+		case val[i] == '/' && !slash:
+			slash = true
+		default:
+			return false
+		}
+	}
+	return true
 }
 
 // TGoto returns a string suitable for addressing the cursor at the given
